@@ -70,7 +70,7 @@ def generated_obligations(ctx, proof, broken):
     for p in plugs:
         rng = random.Random("%s/%s/t2" % (ctx.seed, p.NAME))
         insts = list(p.tier2(ctx.tier, rng)) if hasattr(p, "tier2") else []
-        per_file = getattr(p, "T2_PER_FILE", 12)
+        per_file = getattr(p, "T2_PER_FILE", 6)
         chunk, k, idx = [], 0, 0
         for pb in insts:
             if hasattr(p, "classify") and p.classify(pb, "tier2") in known_keys:
@@ -120,7 +120,8 @@ def generated_obligations(ctx, proof, broken):
     failed = {}
     if todo:
         cmd = ("printf '%s\\n' " + " ".join(todo) +
-               " | xargs -P16 -I{} sh -c 'timeout %d coqc -q -Q theories Cspuz -Q %s C11Gen %s/{} > %s/{}.log 2>&1 || echo FAILED {}'" % (T2_TIMEOUT, T2DIR, T2DIR, T2DIR))
+               " | xargs -P16 -I{} sh -c 'S=$(date +%%s); timeout %d coqc -q -Q theories Cspuz -Q %s C11Gen %s/{} > %s/{}.log 2>&1 || echo FAILED {}; "
+               "echo $(( $(date +%%s) - S )) > %s/{}.time'" % (T2_TIMEOUT, T2DIR, T2DIR, T2DIR, T2DIR))
         rc, out = vlib.sh(cmd, cwd=vlib.COQ, timeout=T2_TIMEOUT * (1 + len(todo) // 16) + 60)
         for line in out.split("\n"):
             if line.startswith("FAILED"):
@@ -136,6 +137,14 @@ def generated_obligations(ctx, proof, broken):
             discharged += len(chunk)
     proof["generated_obligations"] = total
     proof["generated_discharged"] = discharged
+    times = []
+    for fn in wanted:
+        try:
+            times.append((int(open(os.path.join(T2DIR, fn + ".time")).read().strip()), fn))
+        except (OSError, ValueError):
+            pass
+    if times:
+        ctx.note("tier2: slowest generated files (s): %s" % sorted(times, reverse=True)[:4])
     ctx.note("tier2: %d instance goals in %d files, %d discharged, %d recompiled this run, skipped: %s" % (
         total, len(files), discharged, len(todo), skipped[:5]))
     if failed:
@@ -252,9 +261,37 @@ def search(ctx):
                     ctx.mismatches.append({"kind": "search-harness:" + name, "input": repr(pb)[:300], "model": r.get("why"), "impl": None})
                 else:
                     ctx.count("skipped:" + name)
+    if ctx.deep:
+        _deep_search(ctx, plugs)
     for name, st in sorted(stats.items()):
         ctx.note("search %s: %d agree, %d violations, %d skipped, %d harness errors, %.0fs cpu" % (
             name, st["ok"], st["violation"], st["skipped"], st["harness"], st["t"]))
+
+
+def _deep_search(ctx, plugs):
+    """a proof obligation or tie broke: also look at the boards of the Tier-1 tie, which are too large to
+    enumerate - take some models of the really posted program (z3) and ask the rules about each of them"""
+    L = _lib()
+    m = ctx.model("C11")
+    for p in plugs:
+        if not getattr(p, "TIER1", None):
+            continue
+        rng = random.Random("%s/%s/t1" % (ctx.seed, p.NAME))
+        for pb in list(p.tier1_problems(ctx.tier, rng))[:60]:
+            r, insts = L.run_recorded(p, pb, "capture")
+            if r[0] == "err" or len(insts) != 1 or len(insts[0].variables) > 400:
+                continue
+            sv = insts[0]
+            aids = [v.id for v in L.flat_vars(L.answer_arrays(p, r[1]))]
+            tok = L.pb_tokens(p.encode(pb))
+            sols = L.all_key_solutions(sv, aids, 12)
+            ctx.prop_case("deep:" + p.NAME, tok)
+            for s in sols:
+                ans = " ".join(str(int(v)) for v in s)
+                if m.call("R %s %s | %s" % (p.NAME, tok, ans)) == "0":
+                    ctx.violation(_key(p, pb, "deep"), "solve_%s: the solver admits a grid that breaks the rules" % p.NAME,
+                                  {"puzzle": p.NAME, "problem": pb, "admitted_but_breaking_rules": [list(map(int, s))]})
+                    break
 
 
 def broken_explained_by_known(b, seen_known):
